@@ -205,6 +205,7 @@ theorem countLoop_one (T sep text : Bytes) (hT : TokStart T) (htail : Tail sep t
       .ok ⟨some (sep ++ text), k, ty⟩) :
     countLoop (f + 1) (some (T ++ (sep ++ text))) recent num =
       countLoop f (some text) (some (T ++ (sep ++ text))) (num + k) := by
+  have hskip := skipNextPrintedArg_checkFuel hskip
   obtain ⟨hne, _, h0, _, _, _, h47, _⟩ := hT
   have hhd : hd (T ++ (sep ++ text)) = hd T := hd_append_of_ne_nil _ _ hne
   have hpos : 0 < T.length := List.length_pos_iff.mpr hne
